@@ -256,7 +256,20 @@ struct WebSocketFrame
     frame.opcode = WsOpcode::CLOSE;
     frame.payload.push_back(static_cast<std::uint8_t>(code >> 8));
     frame.payload.push_back(static_cast<std::uint8_t>(code));
-    frame.payload.insert(frame.payload.end(), reason.begin(), reason.end());
+    // A control frame carries at most 125 payload bytes (RFC 6455 5.5; parse()
+    // rejects more): 2 for the code, so at most 123 of the reason, cut on a UTF-8
+    // character boundary.
+    std::size_t n = reason.size();
+    if (n > 123)
+    {
+      n = 123;
+      while (n > 0 && (static_cast<unsigned char>(reason[n]) & 0xC0) == 0x80)
+      {
+        --n;
+      }
+    }
+    frame.payload.insert(frame.payload.end(), reason.begin(),
+                         reason.begin() + static_cast<std::string::difference_type>(n));
     return frame;
   }
 
